@@ -53,6 +53,7 @@ var alphabet = []op{
 	{Kind: "regpipe", Type: "t1", ID: "p2", IDs: []string{"m", "s2"}, Ver: "s2"},
 	{Kind: "regpipe", Type: "t1", ID: "p1", IDs: []string{"m", "s2"}, Ver: "s2"}, // overwrite
 	{Kind: "regpipe", Type: "t2", ID: "p1", IDs: []string{"f", "m", "s3"}, Ver: "s3"},
+	{Kind: "regpipe", Type: "t1", ID: "p1", IDs: []string{"f", "s2"}, Ver: "s2"}, // ill-formed (no formatter): must fail and never be seen by a Send
 	{Kind: "rmpipe", Type: "t1", ID: "p1"},
 	{Kind: "rmpipenodes", Type: "t1", ID: "p1"},
 	{Kind: "regnode", ID: "x", Ver: "x2"},
